@@ -27,7 +27,11 @@ def linear_rampup(
     ramp_duration: float | jax.Array,
 ) -> jax.Array:
     """Linear ramp from 0 to 1 over ``[0, ramp_duration]``, clamped to ``[0, 1]``."""
-    return jnp.clip(time / ramp_duration, 0.0, 1.0)
+    # A zero-length ramp is a step at t=0; plain division gives 0/0 = NaN at t=0 there.
+    has_ramp = ramp_duration > 0
+    safe_duration = jnp.where(has_ramp, ramp_duration, 1.0)
+    step = jnp.where(jnp.asarray(time) >= 0, 1.0, 0.0)
+    return jnp.where(has_ramp, jnp.clip(time / safe_duration, 0.0, 1.0), step)
 
 
 def tukey_envelope(
